@@ -37,9 +37,15 @@ MaxPrio(prio) == LET A == Active(prio) IN IF A = {} THEN 0 ELSE CHOOSE p \in {pr
 (*     and the smallest value every k has had (lo) in the run so far - a wait accumulated under        *)
 (*     priority 7, or while k still had priority 1, is not late because a priority was changed a moment *)
 (*     ago.  TLC refuted the first version, which used the current priorities (MC_Poll_hi.cfg).        *)
-WaitBound(m, prio, pert, mx, lo) ==
+(*     Other messages may lag behind the virtual clock by up to hi (the largest priority seen in the    *)
+(*     run; same reason as in (ii): after an in-place key change g_lastPollOrder can overtake queued    *)
+(*     messages) while m - e.g. a message added at g_lastPollOrder + priority - is up to mx[m] ahead     *)
+(*     of it: k is due at most ceil((mx[m] + hi) / lo[k]) + 1 times before m.  TLC refuted the version   *)
+(*     without "+ hi" on the design with the repaired MessageMap::add (MC_Poll_readd_t.cfg: N=3,         *)
+(*     wait 12 > 11 after setprio / re-add / front insertions left two messages 4 and 2 behind).        *)
+WaitBound(m, prio, pert, mx, lo, hi) ==
   LET A == Active(prio) IN
-  SumSeq([k \in 1..Len(prio) |-> IF k \in A THEN CeilDiv(mx[m], lo[k]) + 1 ELSE 0], Len(prio)) + Cardinality(A) * (1 + pert)
+  SumSeq([k \in 1..Len(prio) |-> IF k \in A THEN CeilDiv(mx[m] + hi, lo[k]) + 1 ELSE 0], Len(prio)) + Cardinality(A) * (1 + pert)
 (* (ii) proportionality on a perturbation-free stretch: weighted counts stay together.  On a stretch    *)
 (*      the weighted count of m is the advance of its virtual time, so two weighted counts differ by    *)
 (*      at most (spread of the virtual times at the start) + (spread at the end).  hi = the largest     *)
@@ -79,9 +85,9 @@ MonPerturb(mon, kind, who, prio, K) ==
    mx |-> MxStep(mon, prio, IF kind = "readd" THEN who ELSE 0), lo |-> LoStep(mon, prio, IF kind = "readd" THEN who ELSE 0),
    hi |-> Max2(mon.hi, MaxPrio(prio))]
 
-WaitOk(mon, prio, K) == \A m \in Active(prio) : mon.pert[m] <= K => mon.wait[m] <= WaitBound(m, prio, mon.pert[m], MxStep(mon, prio, 0), LoStep(mon, prio, 0))
+WaitOk(mon, prio, K) == \A m \in Active(prio) : mon.pert[m] <= K => mon.wait[m] <= WaitBound(m, prio, mon.pert[m], MxStep(mon, prio, 0), LoStep(mon, prio, 0), Max2(mon.hi, MaxPrio(prio)))
 PropOk(mon, prio) == \A m, k \in Active(prio) : mon.cnt[m] - mon.cnt[k] <= PropBound(prio, Max2(mon.hi, MaxPrio(prio)))
-WaitWitness(mon, prio, K) == CHOOSE m \in Active(prio) : mon.pert[m] <= K /\ mon.wait[m] > WaitBound(m, prio, mon.pert[m], MxStep(mon, prio, 0), LoStep(mon, prio, 0))
+WaitWitness(mon, prio, K) == CHOOSE m \in Active(prio) : mon.pert[m] <= K /\ mon.wait[m] > WaitBound(m, prio, mon.pert[m], MxStep(mon, prio, 0), LoStep(mon, prio, 0), Max2(mon.hi, MaxPrio(prio)))
 
 -----------------------------------------------------------------------------
 (* ------------------------------- S ------------------------------------- *)
@@ -155,18 +161,24 @@ NextF(s) ==
            s1 == [s EXCEPT !.vec = PopHeap(s, s.vec)]
            s2 == [s1 EXCEPT !.g = Max2(s.g, s.ord[ret]), !.ord[ret] = s.ord[ret] + s.prio[ret], !.lp[ret] = s.now] IN
        [s |-> QPush(s2, ret), sel |-> ret]
-(* MessageMap::remove + reading the definition again: a new Message instance (poll order 0)          *)
-ReAddF(s, m, p0) ==
+(* MessageMap::add of a new Message instance (constructed with poll order 0).  Repaired code: an      *)
+(* instance with order 0 and a priority joins the poll cycle at g_lastPollOrder + priority.  pinned =   *)
+(* TRUE selects the design before that repair (the instance keeps order 0 and has to catch up), kept   *)
+(* for the design-level comparison (MC_Poll_readd_pinned.cfg).                                          *)
+NewOrder(s, p0, pinned) == IF pinned \/ p0 = 0 THEN 0 ELSE s.g + p0
+(* MessageMap::remove + reading the definition again                                                   *)
+ReAddF(s, m, p0, pinned) ==
   LET s1 == [s EXCEPT !.vec = IF s.prio[m] > 0 THEN Erase(s.vec, m) ELSE s.vec,
-                      !.ord[m] = 0, !.prio[m] = p0, !.lp[m] = 0, !.used[m] = FALSE] IN
+                      !.ord[m] = NewOrder(s, p0, pinned), !.prio[m] = p0, !.lp[m] = 0, !.used[m] = FALSE] IN
   AddPollF(s1, FALSE, m)
 TickF(s, d) == [s EXCEPT !.now = s.now + d]
 
 T0 == 1000          \* clock values are >= T0, the "size" values stored by addPollMessage are < T0
-SInitF(prios) ==
+SInitF(prios, pinned) ==
   LET n == Len(prios)
       RECURSIVE Load(_, _)
-      Load(s, i) == IF i > n THEN s ELSE Load(AddPollF([s EXCEPT !.prio[i] = prios[i]], FALSE, i), i + 1) IN
+      Load(s, i) == IF i > n THEN s
+                    ELSE Load(AddPollF([s EXCEPT !.prio[i] = prios[i], !.ord[i] = NewOrder(s, prios[i], pinned)], FALSE, i), i + 1) IN
   Load([vec |-> <<>>, ord |-> TLCEval([m \in 1..n |-> 0]), prio |-> TLCEval([m \in 1..n |-> 0]), lp |-> TLCEval([m \in 1..n |-> 0]),
         used |-> TLCEval([m \in 1..n |-> FALSE]), g |-> 0, now |-> T0], 1)
 
